@@ -336,4 +336,289 @@ theorem readOwn_cap {T : Tuning} {S i : Nat} {w w' : World} (r : ReadN.Reader) (
       obtain ⟨rfl, rfl, _⟩ := h
       exact ⟨⟨rfl, _, World.iov_setIov _ i _, ⟨hrel _, hc.slices⟩⟩, fun a ha => by cases ha⟩
 
+/-! ### Emits, steps, calls -/
+
+theorem applyEmit_cap {T : Tuning} {B S i : Nat} {w w' : World} {toks toks' : List Backref} {e : Emit} {src : Slice}
+    (hw : CapW T S i w) (hH : Hint T B S) (hB2 : 2 ≤ B) (hsm : EmitSmall B e)
+    (hsrc : e.method = .borrow → ∀ bs, e.op = .append bs → ∀ c, src.region = .chunk c → src.off + bs.length ≤ S)
+    (h : applyEmit w i toks e src = some (w', toks')) : CapW T S i w' := by
+  obtain ⟨op, m⟩ := e
+  cases op with
+  | append bs =>
+    have hbs : bs.length ≤ B := hsm.1 bs rfl
+    cases m with
+    | copy =>
+      simp only [applyEmit, Option.map_eq_some_iff, Prod.mk.injEq] at h
+      obtain ⟨w1, h1, rfl, _⟩ := h
+      exact pushCopy_cap bs hw (hH _ hbs) h1
+    | borrow =>
+      simp only [applyEmit, Option.map_eq_some_iff, Prod.mk.injEq] at h
+      obtain ⟨w1, h1, rfl, _⟩ := h
+      exact push_cap { src with len := bs.length } hw hH (by simpa using hbs)
+        (fun c hc => by simpa using hsrc rfl bs rfl c hc) h1
+  | register n =>
+    simp only [applyEmit] at h
+    cases h1 : w.registerPatch i (List.replicate n 0) with
+    | none => rw [h1] at h; cases h
+    | some x =>
+      obtain ⟨w1, b⟩ := x
+      rw [h1] at h
+      simp only [Option.some.injEq, Prod.mk.injEq] at h
+      obtain ⟨rfl, _⟩ := h
+      have hn : n ≤ 2 := hsm.2 n rfl
+      exact registerPatch_cap _ b hw (by rw [List.length_replicate]; exact hH n (by omega)) h1
+  | fill id bs =>
+    simp only [applyEmit] at h
+    cases h0 : toks[id]? with
+    | none => rw [h0] at h; cases h
+    | some b =>
+      rw [h0] at h
+      simp only [Option.map_eq_some_iff, Prod.mk.injEq] at h
+      obtain ⟨w1, h1, rfl, _⟩ := h
+      exact backfill_cap b bs hw h1
+
+theorem applyStep_cap {T : Tuning} {B S i : Nat} {src : Slice} (hH : Hint T B S) (hB2 : 2 ≤ B) (es : List Emit) :
+    ∀ {w w' : World} {toks toks' : List Backref}, CapW T S i w → (∀ e ∈ es, EmitSmall B e) →
+      (∀ e ∈ es, e.method = .borrow → ∀ bs, e.op = .append bs → ∀ c, src.region = .chunk c → src.off + bs.length ≤ S) →
+      applyStep w i toks es src = some (w', toks') → CapW T S i w' := by
+  induction es with
+  | nil =>
+    intro w w' toks toks' hw _ _ h
+    simp only [applyStep, Option.some.injEq, Prod.mk.injEq] at h
+    obtain ⟨rfl, _⟩ := h; exact hw
+  | cons e t ih =>
+    intro w w' toks toks' hw hsm hsrc h
+    simp only [applyStep] at h
+    cases h1 : applyEmit w i toks e src with
+    | none => rw [h1] at h; cases h
+    | some x =>
+      obtain ⟨w1, toks1⟩ := x
+      rw [h1] at h
+      exact ih (applyEmit_cap hw hH hB2 (hsm e (by simp)) (hsrc e (by simp)) h1)
+        (fun x hx => hsm x (by simp [hx])) (fun x hx => hsrc x (by simp [hx])) h
+
+theorem consumeOnce_maxChunk (p : Params) (s : EncState) (nid : Nat) (m : Method) (input : List UInt8) :
+    (Enc.consumeOnce p s nid m input).st.maxChunk = s.maxChunk ∨
+    (Enc.consumeOnce p s nid m input).st.maxChunk = p.maxSub := by
+  by_cases hA : s.mid ∧ input.head? = some FD
+  · rw [consumeOnce_mid p s nid m input hA]; exact Or.inr rfl
+  · cases hfs : findStuff (input.take ((flushS s).maxChunk - (flushS s).cur)) with
+    | some i => rw [consumeOnce_stuff p s nid m input hA hfs]; exact Or.inr rfl
+    | none =>
+      by_cases hfull : (input.take ((flushS s).maxChunk - (flushS s).cur)).length
+          = (flushS s).maxChunk - (flushS s).cur
+      · rw [consumeOnce_full p s nid m input hA hfs hfull]; exact Or.inr rfl
+      · rw [consumeOnce_part p s nid m input hA hfs hfull]; exact Or.inl (flushS_maxChunk s)
+
+theorem consumeOnce_consumed_le (p : Params) (s : EncState) (nid : Nat) (m : Method) (input : List UInt8)
+    (hne : input ≠ []) : (Enc.consumeOnce p s nid m input).consumed ≤ input.length := by
+  have hl : 0 < input.length := List.length_pos_iff.mpr hne
+  by_cases hA : s.mid ∧ input.head? = some FD
+  · rw [consumeOnce_mid p s nid m input hA]; exact hl
+  · cases hfs : findStuff (input.take ((flushS s).maxChunk - (flushS s).cur)) with
+    | some i =>
+      rw [consumeOnce_stuff p s nid m input hA hfs]
+      have := (Woodpile.Hcobs.Spec.findStuff_some hfs).1
+      simp only [List.length_take] at this ⊢
+      omega
+    | none =>
+      by_cases hfull : (input.take ((flushS s).maxChunk - (flushS s).cur)).length
+          = (flushS s).maxChunk - (flushS s).cur
+      · rw [consumeOnce_full p s nid m input hA hfs hfull]
+        simp only [List.length_take] at hfull ⊢
+        omega
+      · rw [consumeOnce_part p s nid m input hA hfs hfull]
+        simp only [List.length_take]
+        omega
+
+/-- One `encode` / `encode_copy` / anchored `encode` call. -/
+theorem encFeed_cap {T : Tuning} {B S : Nat} (hH : Hint T B S) (hB2 : 2 ≤ B) (p : Params) (hsub : p.maxSub ≤ B)
+    (i : Nat) (m : Method) (base : Slice) (fuel : Nat) :
+    ∀ (w w' : World) (e e' : EncW) (input : List UInt8) (pos : Nat), CapW T S i w → max 1 e.st.maxChunk ≤ B →
+      (∀ c, base.region = .chunk c → base.off + base.len ≤ S ∧ pos + input.length ≤ base.len) →
+      encFeed p fuel w i e m base input pos = some (w', e') → CapW T S i w' ∧ max 1 e'.st.maxChunk ≤ B := by
+  induction fuel with
+  | zero =>
+    intro w w' e e' input pos hw hm _ h
+    simp only [encFeed_zero, Option.some.injEq, Prod.mk.injEq] at h
+    obtain ⟨rfl, rfl⟩ := h; exact ⟨hw, hm⟩
+  | succ fuel ih =>
+    intro w w' e e' input pos hw hm hbase h
+    by_cases hne : input = []
+    · subst hne
+      simp only [encFeed_nil, Option.some.injEq, Prod.mk.injEq] at h
+      obtain ⟨rfl, rfl⟩ := h; exact ⟨hw, hm⟩
+    · rw [encFeed_succ p fuel w i e m base input pos hne] at h
+      cases h1 : applyStep w i e.toks (Enc.consumeOnce p e.st e.nid m input).emits
+          { base with off := base.off + pos, len := base.len - pos } with
+      | none => rw [h1] at h; cases h
+      | some x =>
+        obtain ⟨w1, toks1⟩ := x
+        rw [h1] at h
+        have hcl := consumeOnce_consumed_le p e.st e.nid m input hne
+        have hw1 : CapW T S i w1 := by
+          refine applyStep_cap hH hB2 _ hw (fun x hx => (once_small p e.st e.nid m input x hx).mono hm) ?_ h1
+          intro x hx hb bs hop c hc
+          obtain ⟨_, hpre⟩ := once_borrow_prefix p e.st e.nid m input x hx hb bs hop
+          have := hpre.length_le
+          obtain ⟨b1, b2⟩ := hbase c hc
+          simp only; omega
+        refine ih w1 w' _ e' _ _ hw1 ?_ ?_ h
+        · simp only
+          rcases consumeOnce_maxChunk p e.st e.nid m input with h2 | h2 <;> rw [h2] <;> omega
+        · intro c hc
+          obtain ⟨b1, b2⟩ := hbase c hc
+          refine ⟨b1, ?_⟩
+          simp only [List.length_drop]; omega
+
+theorem encFinish_cap {T : Tuning} {B S i : Nat} (hH : Hint T B S) (hB2 : 2 ≤ B) (p : Params) {w w' : World} {e : EncW}
+    (hw : CapW T S i w) (h : encFinish p w i e = some w') : CapW T S i w' := by
+  simp only [encFinish, Option.map_eq_some_iff] at h
+  obtain ⟨x, hx, rfl⟩ := h
+  exact applyStep_cap hH hB2 _ hw (fun x hx => (finish_small p _ x hx).mono (by omega))
+    (fun x hx hb => (finish_no_borrow p _ x hx hb).elim) hx
+
+theorem encInit_cap {T : Tuning} {B S i : Nat} (hH : Hint T B S) (hB2 : 2 ≤ B) (p : Params) (hinit : p.maxInit ≤ B)
+    {w w' : World} {e : EncW} (hw : CapW T S i w) (h : encInit p w i = some (w', e)) :
+    CapW T S i w' ∧ max 1 e.st.maxChunk ≤ B := by
+  simp only [encInit] at h
+  cases h0 : applyStep w i [] (Enc.init p 0).2 ⟨.ext 0, 0, 0⟩ with
+  | none => rw [h0] at h; cases h
+  | some x =>
+    obtain ⟨w1, toks1⟩ := x
+    rw [h0] at h
+    simp only [Option.some.injEq, Prod.mk.injEq] at h
+    obtain ⟨rfl, rfl⟩ := h
+    refine ⟨applyStep_cap hH hB2 _ hw (fun x hx => (init_small p x hx).mono (by omega)) ?_ h0, ?_⟩
+    · intro x hx hb
+      simp only [Enc.init, List.mem_singleton] at hx; subst hx; cases hb
+    · simp only [Enc.init]; omega
+
+/-- The requests of a call list: every anchored read asks for at most `B` bytes. -/
+def ReadsLe (B : Nat) : List ACall → Prop
+  | [] => True
+  | .call _ :: t => ReadsLe B t
+  | .read count _ _ _ :: t => count ≤ B ∧ ReadsLe B t
+
+theorem encCallA_cap {T : Tuning} {B S : Nat} (hH : Hint T B S) (hB2 : 2 ≤ B) (p : Params) (hsub : p.maxSub ≤ B)
+    (i : Nat) (r r' : Run) (c : ACall) (hc : ReadsLe B [c]) (hw : CapW T S i r.w) (hm : max 1 r.e.st.maxChunk ≤ B)
+    (h : encCallA p i r c = some r') : CapW T S i r'.w ∧ max 1 r'.e.st.maxChunk ≤ B := by
+  cases c with
+  | call c =>
+    cases c with
+    | feed m d =>
+      cases m with
+      | copy =>
+        simp only [encCallA, encCall, Option.map_eq_some_iff] at h
+        obtain ⟨x, hx, rfl⟩ := h
+        exact encFeed_cap hH hB2 p hsub i .copy _ _ r.w x.1 r.e x.2 d 0 hw hm (fun c hc => by cases hc) hx
+      | borrow =>
+        simp only [encCallA, encCall, Option.map_eq_some_iff] at h
+        obtain ⟨x, hx, rfl⟩ := h
+        exact encFeed_cap hH hB2 p hsub i .borrow _ _ (r.w.addExt d).1 x.1 r.e x.2 d 0 (addExt_cap d hw) hm
+          (fun c hc => by cases hc) hx
+    | consume k =>
+      simp only [encCallA, encCall] at h
+      cases hv : r.w.iov i with
+      | none => rw [hv] at h; cases h
+      | some v =>
+        rw [hv] at h
+        simp only [Option.map_eq_some_iff] at h
+        obtain ⟨x, hx, rfl⟩ := h
+        exact ⟨consume_cap k x.2 hw hx, hm⟩
+    | advance k =>
+      simp only [encCallA, encCall] at h
+      cases hv : r.w.iov i with
+      | none => rw [hv] at h; cases h
+      | some v =>
+        rw [hv] at h
+        simp only [Option.map_eq_some_iff] at h
+        obtain ⟨x, hx, rfl⟩ := h
+        exact ⟨advance_cap k x.2 hw hx, hm⟩
+  | read count attempts src script =>
+    simp only [encCallA, Option.map_eq_some_iff] at h
+    obtain ⟨x, hx, rfl⟩ := h
+    simp only [encodeRead] at hx
+    cases hro : readOwn r.w i ⟨src, script⟩ count attempts with
+    | none => rw [hro] at hx; cases hx
+    | some y =>
+      obtain ⟨w1, res, o⟩ := y
+      rw [hro] at hx
+      obtain ⟨hw1, hres⟩ := readOwn_cap ⟨src, script⟩ count attempts res o hw (hH count hc.1) hro
+      cases res with
+      | error k =>
+        simp only [Option.some.injEq] at hx
+        subst hx
+        exact ⟨hw1, hm⟩
+      | ok a =>
+        obtain ⟨hal, hacap⟩ := hres a rfl
+        simp only [encodeAnchored] at hx
+        cases hf : encFeed p (2 * (w1.sliceBytes a.slice).length + 2) w1 i r.e .borrow a.slice (w1.sliceBytes a.slice) 0 with
+        | none => rw [hf] at hx; cases hx
+        | some z =>
+          obtain ⟨w2, e2⟩ := z
+          rw [hf] at hx
+          obtain ⟨hw2, hm2⟩ := encFeed_cap hH hB2 p hsub i .borrow a.slice _ w1 w2 r.e e2 _ 0 hw1 hm
+            (fun c hc => ⟨hacap c hc, by have := sliceBytes_length_le w1 a.slice; omega⟩) hf
+          simp only at hx
+          cases hpa : pushAnchorOf w2 i a with
+          | none => rw [hpa] at hx; cases hx
+          | some w3 =>
+            rw [hpa] at hx
+            simp only [Option.some.injEq] at hx
+            subst hx
+            refine ⟨?_, hm2⟩
+            simp only [pushAnchorOf] at hpa
+            split at hpa
+            · simp only [Option.some.injEq] at hpa
+              subst hpa
+              exact hw2
+            · exact pushAnchor_cap a.anchor hw2 hpa
+
+theorem encCallsA_cap {T : Tuning} {B S : Nat} (hH : Hint T B S) (hB2 : 2 ≤ B) (p : Params) (hsub : p.maxSub ≤ B)
+    (i : Nat) (calls : List ACall) :
+    ∀ (r r' : Run), ReadsLe B calls → CapW T S i r.w → max 1 r.e.st.maxChunk ≤ B →
+      encCallsA p i r calls = some r' → CapW T S i r'.w := by
+  induction calls with
+  | nil =>
+    intro r r' _ hw _ h
+    simp only [encCallsA, Option.some.injEq] at h
+    subst h; exact hw
+  | cons c t ih =>
+    intro r r' hc hw hm h
+    simp only [encCallsA] at h
+    cases h1 : encCallA p i r c with
+    | none => rw [h1] at h; cases h
+    | some r1 =>
+      rw [h1] at h
+      have hc1 : ReadsLe B [c] ∧ ReadsLe B t := by
+        cases c with
+        | call c => exact ⟨trivial, hc⟩
+        | read count attempts src script => exact ⟨⟨hc.1, trivial⟩, hc.2⟩
+      obtain ⟨hw1, hm1⟩ := encCallA_cap hH hB2 p hsub i r r1 c hc1.1 hw hm h1
+      exact ih r1 r' hc1.2 hw1 hm1 h
+
+/-- Between the calls of any run on arena tuning `T`, all input methods, every owned slice of the
+encoder's iovec ends within `S` bytes of the start of its chunk — provided requests of at most `B` bytes
+are answered with chunks of at most `S` bytes, `B` bounds the chunk limits and every anchored read's
+`count`. -/
+theorem encPrefixA_cap {T : Tuning} {B S : Nat} (hH : Hint T B S) (hB2 : 2 ≤ B) (p : Params)
+    (hinit : p.maxInit ≤ B) (hsub : p.maxSub ≤ B) (pol : Policy) (calls : List ACall) (hc : ReadsLe B calls) (r : Run)
+    (h : encPrefixA p pol T calls = some r) :
+    ∀ v, r.w.iov 0 = some v → ∀ s ∈ v.slices, ∀ c, s.region = .chunk c → s.off + s.len ≤ S := by
+  have hfresh : CapW T S 0 (World.fresh pol T) :=
+    ⟨rfl, Iov.empty, rfl, ⟨(fun ca h => by cases h), (fun s hs => by cases hs)⟩⟩
+  simp only [encPrefixA] at h
+  cases h0 : encInit p (World.fresh pol T) 0 with
+  | none => rw [h0] at h; cases h
+  | some x =>
+    obtain ⟨w1, e1⟩ := x
+    rw [h0] at h
+    simp only at h
+    obtain ⟨hw1, hm1⟩ := encInit_cap hH hB2 p hinit hfresh h0
+    obtain ⟨_, v', hv', hcap⟩ := encCallsA_cap hH hB2 p hsub 0 calls ⟨w1, e1, []⟩ r hc hw1 hm1 h
+    intro v hv
+    rw [hv'] at hv; cases hv
+    exact hcap.slices
+
 end Woodpile.EncWorld
